@@ -72,6 +72,28 @@ func init() {
 				}
 				t := fmt.Sprintf("Unique body of page %d in doc %d", p+1, di)
 				ls := []pdfLine{{72, 700, 12, t, 0}, {72, 650, 12, fmt.Sprintf("second line p%d", p+1), 0}}
+				if di%3 == 1 {
+					// three lines at text leading, then a gap, then a last line: ways of assembling a page differ on this
+					ls = []pdfLine{{72, 700, 12, t, 0}, {72, 686, 12, fmt.Sprintf("second line p%d", p+1), 0}, {72, 672, 12, "third line of the paragraph", 0}, {300, 640, 12, "a line set to the right", 0}, {72, 600, 12, "last line", 0}}
+				}
+				if di%3 == 2 {
+					// a title line in a large size: the layout analysis lists it as a heading of this page
+					ls = append([]pdfLine{{72, 740, 24, fmt.Sprintf("Heading of sheet %d", p+1), 0}}, ls...)
+				}
+				if di%3 == 1 && (p == 0 || p == 3) {
+					// a page whose text is shown one character at a time (the pages around it are not): how a page
+					// is assembled is decided per page
+					ls = nil
+					for li, line := range []string{t, fmt.Sprintf("second line p%d", p+1)} {
+						x := 72
+						for _, ch := range line {
+							if ch != ' ' {
+								ls = append(ls, pdfLine{x, 700 - 50*li, 12, string(ch), 0})
+							}
+							x += 7
+						}
+					}
+				}
 				// a running title and page numbers on every page but the first (a cover)
 				if di%2 == 0 && np >= 3 && p > 0 {
 					ls = append([]pdfLine{{72, 765, 11, fmt.Sprintf("Running Title of Document %d", di), 0}}, ls...)
@@ -182,6 +204,17 @@ func init() {
 					}
 				}
 				r.Check(okDoc, "document-pages", fmt.Sprintf("Document() pages/page numbers are not %v", want), cv)
+				if okDoc {
+					// the document's outline names the true source page of every heading
+					okT, whyT := true, ""
+					for _, e := range doc.TableOfContents() {
+						var n int
+						if _, err := fmt.Sscanf(e.Text, "Heading of sheet %d", &n); err == nil && n != e.Page {
+							okT, whyT = false, fmt.Sprintf("the outline of selection %v places %q on page %d", want, e.Text, e.Page)
+						}
+					}
+					r.Check(okT, "outline-pages", whyT, cv)
+				}
 				// Text = join of the per-page texts in ascending page order
 				txt, _, terr := c10Apply(tabula.Open(path), bs).Text()
 				var parts []string
